@@ -1,6 +1,8 @@
 SPECIFICATION Spec
 CONSTANTS CancelOnExit = TRUE
  FiredTimerCleared = TRUE
+ RestoreTimerFirst = TRUE
+ StartMode = "fresh"
  MaxNow = 6
  MaxLevel = 14
  MinStop = 4
